@@ -112,4 +112,12 @@ theorem C11_witness_lists_nonempty_steps {σ : Type} (S : Schema α) (ex : Explo
 theorem C11_witness_lists_nonempty_fresh (t : PT α) (hf : PT.Fresh t) : PT.StSound StWNE [] t :=
   PT.stSound_of_fresh StWNE (fun _ ws hw => by cases hw) t [] hf
 
+/-- non-vacuity: the fresh ReLU tree satisfies the hypotheses of `C11_faults_keep_witness_lists_nonempty`, and an oracle
+    that never answers `Some` satisfies `MirrorNonempty` -/
+example : PT.Shaped 2 1 1 exRelu ∧ PT.StSound StWNE [] exRelu :=
+  ⟨by simp [exRelu, PT.Shaped, PKids.Shaped, Aff.WF, IKids.allNone, IKids.length, Aff.outdim],
+   C11_witness_lists_nonempty_fresh exRelu (by simp [exRelu, PT.Fresh, PKids.Fresh])⟩
+example {σ : Type} : MirrorNonempty (α := Rat) (σ := σ) (fun s _ _ _ _ => (none, s)) := by
+  intro s node poly ws k pts s' h; simp at h
+
 end AV
